@@ -258,18 +258,37 @@ class Proj:
         self.cfg = {}
 
 
-def render_rotation(P, fmt, kind, sep=""):
+def rotation_rows(P, fmt, sep=""):
+    """[(field, crop, sow, harvest, rex, yld, autorg|None, variety, comment)] texts of the abstract rotation"""
     rows = []
-    for (crp, sow, har, rex, yld, org, var) in P.rot:
+    for r in P.rot:
+        crp, sow, har, rex, yld, org, var = r[:7]
+        cmt = r[7] if len(r) > 7 else ""
         s = fmt_date(sow, fmt, sep) if sow else "-" * len(fmt_date(har, fmt, sep))
-        rows.append((P.field, crp, s, fmt_date(har, fmt, sep), rex, yld, org, var))
-    if kind == "csv":
-        out = ["Field_ID,crp,sowing,harvst,Rex,yld,autorg,variety,comment"]
-        out += ["%s,%-3s,%s,%s,%s,%s,%s,%s," % r for r in rows]
-    else:
-        out = ["Field_ID    crp  sowing harvst Rex yld autorg variety comment"]
-        out += [("%-9s %-3s %s %s %s %s %s %s" % r).rstrip() + " " for r in rows]
-    return "\n".join(out) + "\nend\n"
+        rows.append((P.field, crp, s, fmt_date(har, fmt, sep), rex, yld, org, var, cmt))
+    return rows
+
+
+def render_rotation(P, fmt, kind, sep=""):
+    """exactly RotaReaderModel.render_rot_txt / render_rot_csv: text = the non-empty tokens each followed by one blank
+    (a row ends after yld, after autorg, or after the variety and then an optional comment); CSV = six cells, or all nine
+    when autorg is given (variety / comment possibly empty)"""
+    out = []
+    for (fld, crp, s, h, rex, yld, org, var, cmt) in rotation_rows(P, fmt, sep):
+        if kind == "csv":
+            cells = [fld, crp, s, h, rex, yld] + ([org, var, cmt] if org is not None else [])
+            out.append(",".join(cells))
+        else:
+            toks = [fld, crp, s, h, rex, yld]
+            if org is not None:
+                toks.append(org)
+                if var:
+                    toks.append(var)
+                    if cmt:
+                        toks.append(cmt)
+            out.append("".join(t + " " for t in toks))
+    hdr = "Field_ID,crp,sowing,harvst,Rex,yld,autorg,variety,comment" if kind == "csv" else "Field_ID crp sowing harvst Rex yld autorg variety comment"
+    return "\n".join([hdr] + out + ["end"]) + "\n"
 
 
 def render_events(P, fmt, sep=""):
@@ -433,6 +452,16 @@ def base_project(rnd, crops=(("SM", ""), ("SOY", "000")), years=(1980, 1983), so
     for k, y in enumerate(range(y0 + 1, y1 + 1)):
         crp, var = crops[(k + 1) % len(crops)]
         P.rot.append((crp, D(y, 4 + rnd.randrange(2), 1 + rnd.randrange(28)), D(y, 9, 1 + rnd.randrange(29)), "000", "000", "0", var))
+    # optional cells on the rows after the first: comment with and without a variety, no comment, row ending after yld
+    for k in range(1, len(P.rot)):
+        crp, sow, har, rex, yld, org, var = P.rot[k]
+        pat = rnd.randrange(4)
+        if pat == 0:
+            P.rot[k] = (crp, sow, har, rex, yld, org, var, "c%d" % k)          # comment (CSV: also behind an EMPTY variety cell)
+        elif pat == 1 and not var:
+            P.rot[k] = (crp, sow, har, rex, yld, None, "", "")                 # the row ends after yld
+        elif pat == 2:
+            P.rot[k] = (crp, sow, har, rex, yld, org, var, "")
     P.fert = [(str(50 + 10 * rnd.randrange(15)), "RM", D(y, 3, 1 + rnd.randrange(28))) for y in range(y0 + 1, y1 + 1, 2)]
     P.til = [(str(5 + rnd.randrange(20)), "1", D(y, 2, 1 + rnd.randrange(28))) for y in range(y0 + 1, y1 + 1)]
     P.irr = [(str(10 + rnd.randrange(20)), "20", D(y, 5 + rnd.randrange(3), 1 + rnd.randrange(28))) for y in range(y0 + 1, y1 + 1, 2)]
